@@ -1,8 +1,120 @@
 import NflowsModel.Core.Driver
-/-! Core/Ops/C11 — driver operations used by the C11 correspondence (executable model, Mathlib-free). -/
+import NflowsModel.Core.LinearFamily
+/-! Core/Ops/C11 — driver operations used by the C11 correspondence (executable model, Mathlib-free).
+
+ops (all matrices travel flattened row-major; `p` selects the precision):
+* `c11/indices`  i=[n]                      → i=[#tril, rows…, cols…, #triu, rows…, cols…]
+* `c11/hh_init`  i=[features, num]          → e | i=[rows, cols], f=[q flat], s=[finite?]
+* `c11/hh`       i=[n, K, N] f=[q, X]       → f=[forward, inverse, matrix]
+* `c11/lu`       i=[n, N] f=[lo, up, ud, b, X] d=[eps] → f=[W, W⁻¹, [ld], fwd, inv, L, U]
+* `c11/qr`       i=[n, K, N] f=[up, logd, q, b, X]     → f=[W, W⁻¹, [ld], fwd, inv]
+* `c11/svd`      i=[n, K, N] f=[ud, q1, q2, b, X] d=[eps] → f=[W, W⁻¹, [ld], fwd, inv]
+* `c11/conv`     i=[C, B, H, W, perm…] f=[lo, up, ud, b, X(NCHW)] d=[eps] → f=[fwd, fwd_ld, inv, inv_ld, W]
+* `c11/naive`    i=[n, N] f=[W, b, X]       → e | f=[W, W⁻¹, [ld], fwd, inv]
+* `c11/ctor`     s=[class] i=[features, num] → e | i=[parameter sizes…]
+-/
 namespace NF
+open LF
+
+def chunk {α : Type} (m : Nat) (xs : List α) : List (List α) :=
+  if m = 0 then [] else (List.range (xs.length / m)).map (fun i => (xs.drop (i * m)).take m)
+
+section
+variable {α : Type} [Bits α]
+
+def flatBits (M : List (List α)) : List Nat := bitsOf M.flatten
+
+/-- rows of a batch / matrix with `n` columns; a batch with `n = 0` columns cannot occur (constructor refuses) -/
+def rowsOf (n : Nat) (xs : List α) : List (List α) := chunk n xs
+
+def c11Run (x : XOps α) (r : Req) : Option Resp :=
+  let o := x.toOps
+  match r.op with
+  | "c11/indices" =>
+    let n := r.nat 0
+    let lo := trilIndices n
+    let up := triuIndices n
+    some { ints := [Int.ofNat lo.length] ++ lo.map (fun p => Int.ofNat p.1) ++ lo.map (fun p => Int.ofNat p.2)
+                  ++ [Int.ofNat up.length] ++ up.map (fun p => Int.ofNat p.1) ++ up.map (fun p => Int.ofNat p.2) }
+  | "c11/hh_init" =>
+    match (hhConstruct o (r.int 0) (r.int 1) : Except Err (List (List α))) with
+    | .error e => some (errResp e)
+    | .ok q =>
+      let n := (r.int 0).toNat
+      -- "usable": forward/inverse/matrix on fresh parameters are finite
+      let m := hhMatrix o n q
+      let f := hhForward o q (eye o n)
+      let fin := (m.flatten ++ f.flatten).all x.isFinite
+      some { ints := [Int.ofNat q.length, Int.ofNat n], fs := [flatBits q, flatBits m],
+             strs := [if fin then "finite" else "non-finite"] }
+  | "c11/hh" =>
+    let n := r.nat 0
+    let q : List (List α) := rowsOf n (r.fl 0)
+    let X : List (List α) := rowsOf n (r.fl 1)
+    some { fs := [flatBits (hhForward o q X), flatBits (hhInverse o q X), flatBits (hhMatrix o n q)] }
+  | "c11/lu" =>
+    let n := r.nat 0
+    let p : LUParams α := { n := n, lower := r.fl 0, upper := r.fl 1, udiag := r.fl 2, bias := r.fl 3, eps := x.ofFloat (r.d 0) }
+    let X : List (List α) := rowsOf n (r.fl 4)
+    some { fs := [flatBits (luWeight o p), flatBits (luWeightInverse o p), bitsOf [luLogabsdet o p],
+                  flatBits (luForward o p X), flatBits (luInverse o p X), flatBits (luL o p), flatBits (luU o p)] }
+  | "c11/conv" =>
+    -- i = [C, B, H, W, perm…]
+    let n := r.nat 0
+    let p : LUParams α := { n := n, lower := r.fl 0, upper := r.fl 1, udiag := r.fl 2, bias := r.fl 3, eps := x.ofFloat (r.d 0) }
+    let perm := (r.ints.toList.drop 4).map Int.toNat
+    let xs : List α := r.fl 4
+    let f := convForward o p perm (r.nat 1) (r.nat 2) (r.nat 3) xs
+    let g := convInverse o p perm (r.nat 1) (r.nat 2) (r.nat 3) xs
+    some { fs := [bitsOf f.1, bitsOf f.2, bitsOf g.1, bitsOf g.2, flatBits (luWeight o p)] }
+  | "c11/qr" =>
+    let n := r.nat 0
+    let p : QRParams α := { n := n, upper := r.fl 0, logDiag := r.fl 1, qs := rowsOf n (r.fl 2), bias := r.fl 3 }
+    let X : List (List α) := rowsOf n (r.fl 4)
+    some { fs := [flatBits (qrWeight o p), flatBits (qrWeightInverse o p), bitsOf [qrLogabsdet o p],
+                  flatBits (qrForward o p X), flatBits (qrInverse o p X)] }
+  | "c11/svd" =>
+    let n := r.nat 0
+    let p : SVDParams α := { n := n, udiag := r.fl 0, qs1 := rowsOf n (r.fl 1), qs2 := rowsOf n (r.fl 2), bias := r.fl 3, eps := x.ofFloat (r.d 0) }
+    let X : List (List α) := rowsOf n (r.fl 4)
+    some { fs := [flatBits (svdWeight o p), flatBits (svdWeightInverse o p), bitsOf [svdLogabsdet o p],
+                  flatBits (svdForward o p X), flatBits (svdInverse o p X)] }
+  | "c11/naive" =>
+    let n := r.nat 0
+    let W : List (List α) := rowsOf n (r.fl 0)
+    let b : List α := r.fl 1
+    let X : List (List α) := rowsOf n (r.fl 2)
+    let fwd := naiveForward o W b X
+    let ld := naiveLogabsdet o n W
+    let inv := naiveInverse o n W b X
+    match gaussInverse o n W with
+    | .ok (wi, _) => some { fs := [flatBits W, flatBits wi, bitsOf [ld], flatBits fwd, flatBits inv] }
+    | .error e => some { fs := [flatBits W, [], bitsOf [ld], flatBits fwd, flatBits inv], err := some e.name }
+  | "c11/ctor" =>
+    -- constructor contracts for integer arguments: Linear (linear.py:34-36), HouseholderSequence
+    -- (orthogonal.py:26-29), SVDLinear's `assert num_householder % 2 == 0` (svd.py:19, after Linear.__init__)
+    let cls := r.str 0
+    let f := r.int 0
+    let k := r.int 1
+    let tri := ((f - 1) * f / 2)
+    if cls == "HouseholderSequence" then
+      if f ≤ 0 || k ≤ 0 then some (errResp .typeError) else some { ints := [k * f] }
+    else if f ≤ 0 then some (errResp .typeError)
+    else if cls == "LULinear" then some { ints := [f, tri, tri, f] }
+    else if cls == "NaiveLinear" then some { ints := [f, f * f] }
+    else if cls == "QRLinear" then
+      if k ≤ 0 then some (errResp .typeError) else some { ints := [f, tri, f, k * f] }
+    else if cls == "SVDLinear" then
+      if k % 2 != 0 then some (errResp .assertion)
+      else if k ≤ 0 then some (errResp .typeError) else some { ints := [f, f, k * f, k * f] }
+    else some { err := some "bad-class" }
+  | _ => none
+
+end
 
 /-- handler for the ops of this property; `none` = not one of mine -/
-def handleC11 (_r : Req) : Option Resp := none
+def handleC11 (r : Req) : Option Resp :=
+  if !r.op.startsWith "c11/" then none
+  else if r.prec == "f32" then c11Run float32X r else c11Run floatX r
 
 end NF
